@@ -5,6 +5,8 @@
 // go/packages overlay; it is never written into the repository.
 package zzvrt
 
+import "time"
+
 // Free (solver-less) nondeterministic choices: the engine forks.
 func Bool() bool
 func Choice(n int) int
@@ -142,6 +144,16 @@ func OKind(r int, path string) int
 // mode prescribes ("only-models": same type declarations, no funcs/vars in the second;
 // "tags": equal after erasing struct tags; "no-yaml": second = first minus YAML code).
 func CompareDecls(a, b, mode string) string
+
+// ---- text kernels (pkg/types): symbolic bytes and calendar times ----
+
+// SymBytes: n symbolic bytes.  SymDate: a valid calendar date (years 0..9999) at midnight UTC.
+// SymClock: a time of day on 0000-01-01 UTC, whole seconds.  SameInstant: equal times.
+func SymBytes(n int) []byte
+func SymDate() time.Time
+func SymClock() time.Time
+func SameInstant(a, b time.Time) bool
+func BytesEq(a, b []byte) bool
 
 // MethodTypes: the names of the types in the emitted source that declare the method (sorted).
 func MethodTypes(src, method string) []string
